@@ -3,7 +3,7 @@
 import glob, json, os, re
 V = os.path.dirname(os.path.dirname(os.path.abspath(__file__)))
 rows = []
-for d in sorted(glob.glob(os.path.join(V, "seeded", "*"))):
+for d in sorted(x for x in glob.glob(os.path.join(V, "seeded", "*")) if os.path.isdir(x)):
     m = json.load(open(os.path.join(d, "meta.json")))
     note = (m.get("what_and_what_it_needs_to_manifest") or "").strip().split("\n")[0][:150].replace("|", "/")
     did = "; ".join(f"{k}: {v}" for k, v in m.get("checks_run", {}).items()).replace("|", "/").replace("\n", " ")
